@@ -60,7 +60,10 @@ func randomJob(rng *rand.Rand, idx int) Job {
 	if g.aux {
 		f := sc("n:FlateDecode")
 		p := di([]string{"Columns", "Predictor"}, []Val{sc("i:4"), sc("i:12")})
-		job.Nodes = append(job.Nodes, Node{N: nn + 1, K: "val", V: &f}, Node{N: nn + 2, K: "val", V: &p}, Node{N: nn + 3, K: "ref", To: nn + 1})
+		pr := di([]string{"Columns", "JBIG2Globals", "Predictor"}, []Val{sc("i:4"), rf(1 + rng.Intn(nn)), sc("i:12")})
+		pa := ar(nul(), pr)
+		job.Nodes = append(job.Nodes, Node{N: nn + 1, K: "val", V: &f}, Node{N: nn + 2, K: "val", V: &p}, Node{N: nn + 3, K: "ref", To: nn + 1},
+			Node{N: nn + 4, K: "val", V: &pr}, Node{N: nn + 5, K: "val", V: &pa})
 	}
 	// calls
 	kinds := map[int]Node{}
@@ -173,7 +176,22 @@ func (g *rgen) objectValue() Val {
 	st.CFI = st.CF != "default" && g.rng.Intn(2) == 0
 	n := g.n
 	parms := di([]string{"Columns", "Predictor"}, []Val{sc("i:4"), sc("i:12")})
-	switch g.rng.Intn(6) {
+	pref := func() Val {
+		return di([]string{"Columns", "JBIG2Globals", "Predictor"}, []Val{sc("i:4"), rf(1 + g.rng.Intn(g.n)), sc("i:12")})
+	}
+	f2 := ar(sc("n:ASCIIHexDecode"), sc("n:FlateDecode"))
+	switch g.rng.Intn(10) {
+	case 6: // parameters referring to a further object (as /JBIG2Globals does)
+		st.K, st.E = []string{"DecodeParms", "Filter"}, []Val{pref(), sc("n:FlateDecode")}
+	case 7:
+		st.K, st.E = []string{"DecodeParms", "Filter"}, []Val{ar(nul(), pref()), f2}
+	case 8:
+		st.K, st.E = []string{"DecodeParms", "Filter"}, []Val{rf(n + 4), sc("n:FlateDecode")}
+		g.aux = true
+	case 9:
+		st.K, st.E = []string{"DecodeParms", "Filter"}, []Val{rf(n + 5), f2}
+		g.aux = true
+		st.CF, st.CFI = "default", false // an indirect array cannot be given a leading /Crypt element
 	case 0:
 	case 1:
 		st.K, st.E = []string{"DecodeParms", "Filter"}, []Val{parms, sc("n:FlateDecode")}
